@@ -115,6 +115,26 @@ def run(ctx, widen=False):
             if not check(ctx, e, deg, "product", [e]):
                 return
             ctx.nontrivial(("product", str(e)))
+    # the variable of interest may be any sympy symbol: with assumptions, a Dummy, a dotted or port-style name
+    from bartiq.analysis import BigO
+
+    O = sympy.Function("O")
+    for var in (sympy.Symbol("N", positive=True), sympy.Symbol("N", integer=True), sympy.Symbol("n", real=True, nonnegative=True),
+                sympy.Dummy("N"), sympy.Symbol("a.b.N"), sympy.Symbol("#in_0")):
+        for deg in range(0, 5):
+            expr = sum(((i + 2) * a**(i % 2) * var**i for i in range(deg + 1)), sympy.Integer(0))
+            ctx.stats["evaluations"] += 1
+            try:
+                got = BigO(expr, var).expr
+            except Exception as e:
+                ctx.violation("failing-input", f"BigO raised {type(e).__name__} for the variable {sympy.srepr(var)}", {"expression": sympy.srepr(expr), "variable": sympy.srepr(var)}, str(e)[:200], "O(var**deg)")
+                return
+            exp = O(var**deg) if deg > 0 else O(1)
+            if got != exp:
+                ctx.violation("failing-input", f"BigO of a degree-{deg} polynomial in the variable {sympy.srepr(var)} is {got}",
+                              {"expression": sympy.srepr(expr), "variable": sympy.srepr(var)}, str(got), str(exp))
+                return
+            ctx.nontrivial(("variable-kind", sympy.srepr(var), deg))
     model_correspondence(ctx)
 
 
